@@ -170,6 +170,23 @@ func (rt *runtime) interrupt(function func()) {
 	function()
 }
 
+// pollInterrupt is for the loops of built-ins that run as many times as a length chosen by the
+// script says (up to 2^32-1) without evaluating a statement: once in 65536 iterations it looks at
+// the Interrupt channel, as the evaluator does before every statement.
+func (rt *runtime) pollInterrupt(iteration int64) {
+	if iteration&0xFFFF != 0 || rt.otto.Interrupt == nil {
+		return
+	}
+	select {
+	case value := <-rt.otto.Interrupt:
+		labels := rt.labels
+		rt.labels = nil
+		rt.interrupt(value)
+		rt.labels = labels
+	default:
+	}
+}
+
 // samePanic reports whether two recovered panic values are one and the same.
 func samePanic(a, b interface{}) (same bool) {
 	defer func() {
